@@ -529,7 +529,11 @@ class Engine:
             for f, ft in pt.mut.items():
                 st.heap[(name, f)] = V(ft, z3.Const(f'{name}.{f}@0', ft.sort()))
             return obj
-        return V(pt, z3.Const(name, pt.sort()))
+        # a parameter that shares its name with a vocabulary function (`parent`, `name`, `text`, ...) gets a distinct SMT name: SMT-LIB
+        # allows the overloading, cvc5's parser wants a cast for it
+        vocab = getattr(self.world, 'tree', None)
+        clash = vocab is not None and isinstance(getattr(vocab, name, None), z3.FuncDeclRef)
+        return V(pt, z3.Const(name + '$arg' if clash else name, pt.sort()))
 
     def finish(self, o: Outcome):
         c = self.c
